@@ -59,8 +59,8 @@ def expect_run(live, tick, e0, duration, alt):
         if d["client"]:
             M = max(M, INF if kc is None else kc)
         cands = []
-        if kc is not None and end in ("err", "panic"):
-            cands.append((kc, "software" if end == "err" else "panic"))
+        if kc is not None and (F.is_err(end) or end == "panic"):
+            cands.append((kc, "software" if F.is_err(end) else "panic"))
         if kp is not None:
             cands.append((kp, "panic"))
         for (s, kd) in cands:
@@ -97,7 +97,7 @@ def c11_oracle(case, obs):
         here = {key: m for key, m in markers.items() if m[0] == k}
         endkind = {(d["host"], d["inc"]): d["prog"].get("end", "ok") for d in incs}
         unfinished = [d for d in live if d["client"] and (d["host"], d["inc"]) not in here]
-        errs_here = [key for key in here if endkind[key] == "err"]
+        errs_here = [key for key in here if F.is_err(endkind[key])]
         n = len(o.get("orders", []))
         tag = "event %d (%s)" % (k, name)
         # ---- statements that do not depend on timing predictions -------------
@@ -186,7 +186,7 @@ def expect_step(live, tick, e0, duration, alt):
         exact = exact and ex
         if kp == 1:
             kinds.add("panic")
-        if kc == 1 and end == "err":
+        if kc == 1 and F.is_err(end):
             kinds.add("software")
         if kc == 1 and end == "panic":
             kinds.add("panic")
@@ -271,9 +271,10 @@ def gen_boundary_cases():
     tick = 2 * MS
     for s in (0, 1, 2, 3, 4, 6):
         for dur in (0, 1, 2, 3, 4, 5, 6, 7):
-            for hend, hs in (("never", 0), ("err", 2), ("err", 4), ("ok", 2), ("panic", 4)):
-                for cend in ("ok", "err"):
-                    cfg = {"tick_ns": tick, "duration_ns": dur * MS, "epoch_ms": 7, "random_order": (s + dur) % 2 == 1, "seed": s * 31 + dur}
+            for hend, hs in (("never", 0), ("err", 2), ("err_cancelled", 4), ("ok", 2), ("panic", 4), ("err_io", 2),
+                             ("err_joinpanic", 4)):
+                for cend in ("ok", "err", "err_cancelled", "err_joinpanic", "err_io"):
+                    cfg = {"tick_ns": tick, "duration_ns": dur * MS, "epoch_ns": 7 * MS + 3, "random_order": (s + dur) % 2 == 1, "seed": s * 31 + dur}
                     script = [["host", [{"main": [["sleep", hs * MS]], "end": hend, "ticker": True, "tasks": []}]],
                               ["client", {"main": [["sleep", s * MS]], "end": cend, "ticker": False, "tasks": []}],
                               ["run"], ["probe"], ["run"], ["step"], ["probe"]]
